@@ -33,6 +33,7 @@ type Dep struct {
 
 	SrcAlias string // alias the source files use: "" none, "." dot
 	AltAlias string // a second alias, used by the odd-numbered source files (one path under two names)
+	ExtraFiles map[string]string // further files of the package (build-constrained variants)
 }
 
 // Hazards switches on input shapes that trigger known (open) findings. All false by default: the random
@@ -427,6 +428,17 @@ func (b *builder) makeDeps() {
 		uid := b.nextUID()
 		t.Deps = append(t.Deps, &Dep{Path: t.ModPath + "/fx/thing_impl", Dir: "fx/thing_impl", Name: "thing", UID: uid, SrcAlias: "thing", Fixed: true,
 			Struct: "Widget", Ifaces: []string{"Iface"}, Embed: "Emb" + uid, EmbedMethods: []string{"Em" + uid}, Func: "Func", Gen: "Gen", Num: "Num", Constr: "Constr", StrIf: "Str", GenAlias: "List"})
+		if !b.prof.Runtime {
+			// a package whose interface differs between build configurations: the cgo build has one more method and a
+			// variadic parameter where the !cgo build has a slice (the mock must match what `go build` will see)
+			uid := b.nextUID()
+			t.Deps = append(t.Deps, &Dep{Path: t.ModPath + "/fx/driver", Dir: "fx/driver", Name: "driver", UID: uid,
+				Struct: "Row", Ifaces: []string{"Iface"}, Embed: "Emb" + uid, EmbedMethods: []string{"Em" + uid}, Func: "Func", Gen: "Gen", Num: "Num", Constr: "Constr", StrIf: "Str", GenAlias: "List",
+				ExtraFiles: map[string]string{
+					"conn_cgo.go":   "//go:build cgo\n\npackage driver\n\n// Conn as the cgo-backed driver offers it.\ntype Conn interface {\n\tQuery(q string, args ...any) (Row, error)\n\tBackup(dst string) error\n}\n",
+					"conn_nocgo.go": "//go:build !cgo\n\npackage driver\n\n// Conn of the pure-Go fallback.\ntype Conn interface {\n\tQuery(q string, args []any) (Row, error)\n}\n",
+				}})
+		}
 		if !b.prof.Regen {
 			// one import path that two source files import under two different names (not in the regeneration corpus:
 			// KF-regeneration-inconsistent-aliases)
@@ -553,6 +565,9 @@ func (b *builder) render() {
 	t := b.t
 	for _, d := range append(append([]*Dep{}, t.Deps...), t.Hidden...) {
 		t.Files[d.Dir+"/"+"pkg.go"] = b.depSource(d)
+		for name, src := range d.ExtraFiles {
+			t.Files[d.Dir+"/"+name] = src
+		}
 	}
 	l := t.Locals
 	var ty strings.Builder
